@@ -161,7 +161,7 @@ def pointer_root_arg(body, local, depth=10):
         depth -= 1
         if 1 <= cur <= body.arg_count:
             return cur
-        ds = [d for d in body.defs.get(cur, []) if d[1] != "part"]
+        ds = body.unique_defs(cur)
         if len(ds) != 1 or ds[0][1] != "assign":
             return None
         rv = ds[0][2]["rv"]
@@ -180,7 +180,7 @@ def guard_of_pointer(body, local, depth=10):
     cur = local
     while depth > 0:
         depth -= 1
-        ds = [d for d in body.defs.get(cur, []) if d[1] != "part"]
+        ds = body.unique_defs(cur)
         if len(ds) != 1:
             return None
         site, kind, node = ds[0]
@@ -218,7 +218,7 @@ def _borrowed_local(body, tmp, depth=8):
     cur = tmp
     while depth > 0:
         depth -= 1
-        ds = [d for d in body.defs.get(cur, []) if d[1] != "part"]
+        ds = body.unique_defs(cur)
         if len(ds) != 1 or ds[0][1] != "assign":
             return cur
         rv = ds[0][2]["rv"]
